@@ -148,6 +148,45 @@ def live_runs(env: Env, out: Outcome, n: int, monitors: list[Callable[[Trace], l
     return traces
 
 
+def runner_corr(out: Outcome, traces: list[Trace], label: str = "engine-runner") -> None:
+    """runner-LTS correspondence for traces produced outside `live_runs` (resumed runs: `rinit` without a start event)"""
+    ops: list[str] = []
+    exp: list[str] = []
+    owner: list[int] = []
+    for i, tr in enumerate(traces):
+        if tr.outcome[0] in ("invalid",):
+            continue
+        try:
+            o, e = corr.runner_lines(tr)
+        except Exception as ex:
+            out.divergences.append(Divergence(label, 0, "<encode>", "", f"{type(ex).__name__}: {ex}", {"spec": tr.spec}))
+            continue
+        ops += o
+        exp += e
+        owner += [i] * len(o)
+    if not ops:
+        return
+    try:
+        mo = Driver("engine").run(ops)
+    except Exception as ex:
+        out.divergences.append(Divergence(label, 0, "<driver>", repr(ex), ""))
+        return
+    out.traces_validated += len(traces)
+    out.disagreements_checked += len(ops)
+    d = diff_streams(label, ops, mo, exp)
+    if d is not None:
+        t = traces[owner[d.index]] if d.index < len(owner) else None
+        a, b = d.model_out, d.impl_out
+        i = 0
+        while i < min(len(a), len(b)) and a[i] == b[i]:
+            i += 1
+        d.model_out = a[max(0, i - 300): i + 400]
+        d.impl_out = b[max(0, i - 300): i + 400]
+        d.op = d.op[:1500]
+        d.context = {"spec": t.spec, "actions": t.actions, "resumed": bool(t.spec.get("_resumed"))} if t is not None else None
+        out.divergences.append(d)
+
+
 def enc_pub(e: Any) -> str:
     from . import enc
 
